@@ -12,7 +12,7 @@ import (
 )
 
 func init() {
-	register("C17", "Decides the structural clauses of private-hop redaction for all result documents: (R17.1) the HTTP query key skip-private-hops and the CLI flag of the same name flow into TracerouteParams.SkipPrivateHops, the HTTP handler hands the parsed parameters to RunTraceroute, and every success path of RunTraceroute on which the flag is true passes through (*Results).RemovePrivateHops on the returned document; (R17.2) the replacement stored into a hop slot is a fresh TracerouteHop whose only assigned field is TTL, taken from the replaced hop at the same run and hop index, and the hop lists are never appended to or re-sliced; (R17.3) the replacement is control-dependent on exactly one data condition, IsPrivate of the hop's own address, and both loops visit every run and every hop (no exit but the range ending). That net.IP.IsPrivate is right at every block boundary and for IPv4-mapped forms is the standard library's; redaction of Source/Destination is not part of the property. A hop scrubbed in place (every field but TTL reset, possibly in a method of the hop) is accepted when the scrub depends on exactly IsPrivate of that hop's own address.", runC17)
+	register("C17", "Decides the structural clauses of private-hop redaction for all result documents: (R17.1) the HTTP query key skip-private-hops and the CLI flag of the same name flow into TracerouteParams.SkipPrivateHops, the HTTP handler hands the parsed parameters to RunTraceroute, and every success path of RunTraceroute on which the flag is true passes through (*Results).RemovePrivateHops on the returned document; (R17.2) the replacement stored into a hop slot is a fresh TracerouteHop whose only assigned field is TTL, taken from the replaced hop at the same run and hop index, and the hop lists are never appended to or re-sliced; (R17.3) the replacement is control-dependent on exactly one data condition, IsPrivate of the hop's own address, and both loops visit every run and every hop (no exit but the range ending). That net.IP.IsPrivate is right at every block boundary and for IPv4-mapped forms is the standard library's; redaction of Source/Destination is not part of the property. A hop scrubbed in place (every field but TTL reset, possibly in a method of the hop) is accepted when the scrub depends on exactly IsPrivate of that hop's own address. The boolean query decoder returns strconv.ParseBool's verdict (shared with C19 R19.5b).", runC17)
 }
 
 func runC17(c *Ctx) {
